@@ -52,6 +52,24 @@ fn reach_of_try_get(r: Result<Option<&Module>, &ModuleError>) -> Reach {
   }
 }
 
+/// Where `s` sits relative to a redirect cycle of the graph: number of hops
+/// before the cycle is entered, the cycle's length, and how many cycle members
+/// hold an entry of their own - the identity of a cycle finding.
+fn cycle_shape(graph: &ModuleGraph, s: &ModuleSpecifier, view: &BTreeSet<ModuleSpecifier>) -> String {
+  let mut path: Vec<&ModuleSpecifier> = vec![s];
+  let mut cur = s;
+  while let Some(n) = graph.redirects.get(cur) {
+    if let Some(pos) = path.iter().position(|p| *p == n) {
+      let cycle = &path[pos..];
+      let with_entry = cycle.iter().filter(|m| view.contains(**m)).count();
+      return format!("tail{}+cycle{}+entries{}", pos, cycle.len(), with_entry);
+    }
+    path.push(n);
+    cur = n;
+  }
+  "no-cycle-from-here".to_string()
+}
+
 /// All lookups against the walk, for every specifier of interest.
 pub fn check_lookups(
   graph: &ModuleGraph,
@@ -94,7 +112,22 @@ pub fn check_lookups(
     })
     .collect();
   let mut checks = 0;
+  // specifiers that hold an entry of their own (the serialised `modules` list)
+  let holders: BTreeSet<ModuleSpecifier> = serde_json::to_value(graph).unwrap()["modules"]
+    .as_array()
+    .map(|a| a.iter().filter_map(|m| m["specifier"].as_str()).filter_map(|s| ModuleSpecifier::parse(s).ok()).collect())
+    .unwrap_or_default();
+  // cycle findings are identified by the shape they occur in, not by their class alone
+  let cls = |s: &ModuleSpecifier| -> String {
+    if shape_class == "redirect-cycle" {
+      format!("redirect-cycle:{}", cycle_shape(graph, s, &holders))
+    } else {
+      shape_class.to_string()
+    }
+  };
   for s in &interest {
+    let shape_class = cls(s);
+    let shape_class = shape_class.as_str();
     let walk = walk_reach(graph, s);
     // termination of resolve is guarded by the watchdog
     let r1 = graph.resolve(s).clone();
@@ -194,7 +227,7 @@ pub fn check_lookups(
         checks += 1;
         if got != want {
           run.violate(
-            format!("resolve_dependency-disagrees-with-walk@{shape_class}"),
+            format!("resolve_dependency-disagrees-with-walk@{}", first.map(|f| cls(f)).unwrap_or_else(|| shape_class.to_string())),
             format!(
               "resolve_dependency({text:?}, {}, prefer_types={prefer_types}) = {:?}, expected {:?}",
               js.specifier,
